@@ -16,7 +16,12 @@ RULE = ('per helper, the cross product of the boundary set {None where optional,
         '2^31-1, -2^31} (exhaustive for helpers with <= 3 arguments; pairwise + {0,1,-1}^6 x clear + random for the '
         'low-level move; pause lengths around every multiple of 750 plus random), both layers, three firmware versions '
         'for the gated legacy helpers, 8 prior motor states for the EBB3 enable; a case is one (layer, request) '
-        'emission; distinct by (layer, request, arguments, board)')
+        'emission; distinct by (layer, request, arguments, board).  Second stream: call SEQUENCES on long-lived ports/objects, '
+        'every call judged against the documented command for the board state at that moment - per helper the identical call '
+        'repeated and every single-argument variation A-B-A; motors_enable from all 20 board states followed by a second and '
+        'third request, and only-motor-2 / scale change / only-motor-2 again; random walks over all helpers with both layers '
+        'interleaved on two objects per layer (different firmware / board state) plus one port-less object per layer, reboot '
+        'and re-attach; the EBB3 fake tracks EM/QE state as documented')
 TRUSTED = ['fake ports (harness/c06.py): acknowledge every command, answer queries like an EBB (legacy: data line + OK, '
            'single line for V/PI; EBB3: reply starts with the request name)',
            'modelled not verified: Python int formatting ({}.format / f-string) = decimal numeral = Lean Int.repr '
@@ -434,12 +439,16 @@ def run(ctx):
     rng = ctx.rng
     if getattr(ctx, 'replay', None):
         data = json.load(open(ctx.replay))
-        reqs = []
+        reqs, seqs = [], []
         for v in data.get('violations', []) + data.get('model_vs_implementation', []):
             i = v['input']
-            reqs.append((i['kind'], tuple(i['args']), tuple(i.get('board', (16, 16))), i.get('version', '2.8.1')))
+            if 'sequence' in i:
+                seqs.append(i['sequence'])
+            elif 'kind' in i:
+                reqs.append((i['kind'], tuple(i['args']), tuple(i.get('board', (16, 16))), i.get('version', '2.8.1')))
     else:
         reqs = gen_requests(ctx, T)
+        seqs = gen_sequences(ctx, T)
 
     # ---- model answers (one driver line per request) ----
     lines = []
@@ -480,6 +489,7 @@ def run(ctx):
     ctx.violate = violate
     try:
         _run_cases(ctx, T, e3m, reqs, outs, seen_paths)
+        _run_sequences(ctx, T, e3m, seqs)
     finally:
         ctx.violate = raw_violate
         if per_key:
@@ -625,3 +635,269 @@ def _run_cases(ctx, T, e3m, reqs, outs, seen_paths):
         missing = [p for p in REQUIRED_PATHS if p not in seen_paths]
         if missing:
             raise Infra(f'model paths without input: {missing}')
+
+
+# ----------------------------------------------------------------------------------------------
+# sequences: related calls on the SAME long-lived ports / objects, both layers interleaved, every call judged
+# ----------------------------------------------------------------------------------------------
+class Ebb3Board(Ebb3Port):
+    """future-syntax board that implements EM / QE as documented: EM,<e1>,<e2> - e1 in 1..5 enables motor 1 and sets the
+    global step mode, e1 = 0 disables motor 1 (mode kept); e2 != 0 enables motor 2; QE reports 0 for a disabled motor,
+    else the microstep multiplier of the global mode"""
+    MULT = {1: 16, 2: 8, 3: 4, 4: 2, 5: 1}
+
+    def __init__(self, state):
+        Ebb3Port.__init__(self)
+        self.m1, self.m2, self.mode = bool(state[0]), bool(state[1]), int(state[2])
+
+    @property
+    def qe(self):
+        m = self.MULT[self.mode]
+        return (m if self.m1 else 0, m if self.m2 else 0)
+
+    @qe.setter
+    def qe(self, _v):
+        pass
+
+    def write(self, data):
+        n = Ebb3Port.write(self, data)
+        parts = bytes(data).decode('ascii', 'replace').strip().split(',')
+        if parts[0] == 'EM' and len(parts) == 3:
+            try:
+                e1, e2 = int(parts[1]), int(parts[2])
+                if 1 <= e1 <= 5:
+                    self.mode = e1
+                self.m1, self.m2 = e1 != 0, e2 != 0
+            except ValueError:
+                pass
+        return n
+
+
+BOARD_STATES = [(m1, m2, mode) for m1 in (0, 1) for m2 in (0, 1) for mode in (1, 2, 3, 4, 5)]
+
+
+def rand_args(rng, kind, spec, layer):
+    """arguments inside the helper's domain for `layer` (small / zero / boundary mixture)"""
+    if kind == 'timedPause':
+        return [rng.choice([0, 1, -1, 5, 749, 750, 751, 1500, 1501, rng.randint(1, 2500)])]
+    a = []
+    for c in spec:
+        v = rng.choice([0, 0, 1, -1, rng.randint(0, 7), rng.choice(B), rng.randint(-70000, 70000)])
+        a.append(rng.choice([None, 0, v, v]) if c == 'o' else v)
+    if kind == 'varWriteInt32':
+        a[0] = rng.choice([0, 1, -1, 258, 2 ** 31 - 1, -2 ** 31, rng.randint(-2 ** 31, 2 ** 31 - 1)])
+    if kind == 'enable':
+        a = [rng.choice([0, 0, 1, 2, 3, 5, 6, -1]), rng.choice([0, 0, 1, 2, 3, 5, 6, -1])]
+        if layer == 'legacy':
+            a[1] = a[0]
+    if kind == 'pbConfig' and layer == 'legacy':
+        a[2] = 0
+    return a
+
+
+def sibling(rng, kind, spec, layer, a, i=None):
+    """the same request with one argument (position i, default random) changed"""
+    b = list(a)
+    if not b:
+        return b
+    if i is None:
+        i = rng.randrange(len(b))
+    if kind == 'enable' and layer == 'legacy':
+        v = rng.choice([x for x in (0, 1, 2, 5, 6, -1) if x != b[0]])
+        return [v, v]
+    if kind == 'pbConfig' and layer == 'legacy' and i == 2:
+        i = rng.randrange(2)
+    if spec[i] == 'o':
+        b[i] = rng.choice([x for x in (None, 0, 1, 3, 7) if x != b[i]])
+    elif kind == 'timedPause':
+        b[i] = rng.choice([x for x in (0, 1, 750, 751, 1500, 2251) if x != b[i]])
+    elif kind == 'varWriteInt32' and i == 0:
+        b[i] = rng.choice([x for x in (0, 1, -1, 65536, -2 ** 31) if x != b[i]])
+    else:
+        b[i] = rng.choice([x for x in (0, 1, -1, 5, 6, 750, b[i] + 1, -b[i] if b[i] else 9) if x != b[i]])
+    return b
+
+
+def gen_sequences(ctx, T):
+    """each sequence: {'objects': [{'layer', 'version' | 'state', 'port': bool}], 'steps': [[object index, kind, args, drop]]}"""
+    rng = ctx.rng
+    seqs = []
+    serves = {'legacy': [k for k, v in T.items() if v[1] is not None], 'ebb3': [k for k, v in T.items() if v[2] is not None]}
+
+    def obj(layer, port=True):
+        if layer == 'legacy':
+            return {'layer': 'legacy', 'version': rng.choice(VERSIONS), 'port': port}
+        return {'layer': 'ebb3', 'state': list(rng.choice(BOARD_STATES)), 'port': port}
+
+    # (1) siblings: the same helper again with one argument changed, then the original again, on one port / object
+    for layer in ('legacy', 'ebb3'):
+        for kind in serves[layer]:
+            if kind in ('reboot', 'bootload'):
+                continue
+            spec = T[kind][0]
+            for _ in range(ctx.n(6) if spec else 1):
+                a = rand_args(rng, kind, spec, layer)
+                order = [a, a]                                  # identical repeat, then every single-argument variation A-B-A
+                for i in range(len(spec)):
+                    b = sibling(rng, kind, spec, layer, a, i)
+                    order += [b, a]
+                    if rng.random() < 0.3:
+                        order += [sibling(rng, kind, spec, layer, b), b]
+                steps = [[0, kind, x, rng.random() < 0.5] for x in order]
+                seqs.append({'tag': 'sibling', 'objects': [obj(layer)], 'steps': steps})
+    # (2) motors_enable from every prior board state, then a second request on the same object (and a third = the second)
+    firsts = list(itertools.product([0, 1, 2, 5, 6, -1], repeat=2))
+    seconds = list(itertools.product([0, 1, 3, 5], repeat=2))
+    for st in BOARD_STATES:
+        for f in firsts:
+            for g in (seconds if ctx.tier == 'thorough' else rng.sample(seconds, 6) + [tuple(clamp05(x) for x in f)]):
+                seqs.append({'tag': 'enable2', 'objects': [{'layer': 'ebb3', 'state': list(st), 'port': True}],
+                             'steps': [[0, 'enable', list(f), False], [0, 'enable', list(g), False], [0, 'enable', list(g), False]]})
+    # ... and A-B-A: only-motor-2 at scale r, then a request that changes the global scale, then only-motor-2 at r again
+    # (twice): anything remembered from the first call is stale by the third
+    for st in BOARD_STATES:
+        for r in (1, 2, 3, 4, 5):
+            for r2 in (1, 2, 3, 4, 5):
+                if r2 != r:
+                    for mid in ([r2, 0], [r2, r2], [r2, r], [0, r2]):
+                        seqs.append({'tag': 'enable3', 'objects': [{'layer': 'ebb3', 'state': list(st), 'port': True}],
+                                     'steps': [[0, 'enable', [0, r], False], [0, 'enable', mid, False], [0, 'enable', [0, r], False],
+                                               [0, 'enable', [0, r], False]]})
+    for r in (0, 1, 2, 5, 6, -1):
+        for r2 in (0, 1, 3, 5, 9):
+            seqs.append({'tag': 'enable2', 'objects': [obj('legacy')],
+                         'steps': [[0, 'enable', [r, r], False], [0, 'enable', [r2, r2], False], [0, 'enable', [r2, r2], False],
+                                   [0, 'disable', [], False], [0, 'enable', [r2, r2], False]]})
+    # (3) one helper after a different one, both layers interleaved on long-lived objects, two instances per layer with
+    #     different firmware / board state, one port-less object per layer, reboot + re-attach
+    for _ in range(ctx.n(350)):
+        objects = [obj('legacy'), obj('legacy'), obj('ebb3'), obj('ebb3'), obj('legacy', False), obj('ebb3', False)]
+        steps = []
+        hot = [rng.choice(serves['legacy']), rng.choice(serves['ebb3'])]     # helpers revisited often within this walk
+        for _ in range(rng.randint(12, 40)):
+            oi = rng.choice([0, 0, 1, 2, 2, 3, 0, 2, 4, 5])
+            layer = objects[oi]['layer']
+            r = rng.random()
+            if layer == 'ebb3' and r < 0.03:
+                steps.append([oi, rng.choice(['reboot', 'bootload']), [], False])
+                continue
+            if layer == 'ebb3' and r < 0.08:
+                steps.append([oi, 'reattach', [], False])
+                continue
+            kind = rng.choice(hot) if r < 0.4 and rng.choice(hot) in serves[layer] else rng.choice(serves[layer])
+            if kind not in serves[layer] or kind in ('reboot', 'bootload'):
+                kind = rng.choice([k for k in serves[layer] if k not in ('reboot', 'bootload')])
+            if steps and rng.random() < 0.25 and steps[-1][1] == kind and objects[steps[-1][0]]['layer'] == layer and steps[-1][2]:
+                a = sibling(rng, kind, T[kind][0], layer, steps[-1][2])      # same helper, other object or same, one argument changed
+            else:
+                a = rand_args(rng, kind, T[kind][0], layer)
+            steps.append([oi, kind, a, rng.random() < 0.5])
+        seqs.append({'tag': 'walk', 'objects': objects, 'steps': steps})
+    return seqs
+
+
+def run_sequence(seq, T, e3m):
+    objs = []
+    for spec in seq['objects']:
+        if spec['layer'] == 'legacy':
+            objs.append({'layer': 'legacy', 'fake': LegacyPort(spec['version']) if spec.get('port', True) else None,
+                         'ver': spec['version'], 'connected': bool(spec.get('port', True))})
+        else:
+            board = Ebb3Board(spec['state'])
+            o = e3m.EBBMotionWrap()
+            o.port, o.err, o.version = (board if spec.get('port', True) else None), None, '3.0.2'
+            objs.append({'layer': 'ebb3', 'fake': board, 'obj': o, 'ver': '3.0.2', 'connected': bool(spec.get('port', True)),
+                         'attachable': bool(spec.get('port', True))})
+    recs = []
+    for i, (oi, kind, a, drop) in enumerate(seq['steps']):
+        o = objs[oi]
+        a = tuple(a)
+        if kind == 'reattach':
+            if o['layer'] == 'ebb3' and o['attachable']:
+                o['fake'].q.clear()             # a new connection starts with an empty input buffer (connect() resets it)
+                o['obj'].port = o['fake']
+                o['connected'] = True
+            continue
+        fake = o['fake']
+        before = len(fake.sent) if fake is not None else 0
+        board = tuple(fake.qe) if o['layer'] == 'ebb3' else (16, 16)
+        rec = {'step': i, 'layer': o['layer'], 'kind': kind, 'args': a, 'board': board, 'ver': o['ver'],
+               'connected': o['connected'], 'exc': None, 'err': None}
+        try:
+            if o['layer'] == 'legacy':
+                T[kind][1](fake if o['connected'] else None, a, drop)
+            else:
+                T[kind][2](o['obj'], a, drop)
+                rec['err'] = o['obj'].err
+        except Exception as ex:  # judged below
+            rec['exc'] = repr(ex)
+        rec['got'] = list(fake.sent[before:]) if fake is not None else []
+        if o['layer'] == 'ebb3' and kind in ('reboot', 'bootload'):
+            o['connected'] = False
+        recs.append(rec)
+    return recs
+
+
+def _run_sequences(ctx, T, e3m, seqs):
+    all_recs = []
+    for si, seq in enumerate(seqs):
+        for rec in run_sequence(seq, T, e3m):
+            rec['seq'] = si
+            all_recs.append(rec)
+    outs = None
+    if ctx.driver and all_recs:
+        lines = []
+        for r in all_recs:
+            fw = 1
+            if r['kind'] in GATE and r['layer'] == 'legacy':
+                fw = 1 if tuple(int(x) for x in r['ver'].split('.')) >= GATE[r['kind']] else 0
+            m1, m2 = QE_DECODE[r['board'][0]], QE_DECODE[r['board'][1]]
+            lines.append(f"c06 all {1 if r['connected'] else 0} {fw} {m1} {m2} {r['kind']} " + ' '.join(tok(x) for x in r['args']))
+        outs = ctx.driver.batch(lines)
+    for idx, r in enumerate(all_recs):
+        seq = seqs[r['seq']]
+        layer, kind, a, got = r['layer'], r['kind'], r['args'], r['got']
+        # the replayable input is the sequence cut after the failing step
+        inp = {'kind': kind, 'args': list(a), 'board': list(r['board']), 'version': r['ver'], 'layer': layer, 'step': r['step'],
+               'sequence': {'tag': seq.get('tag'), 'objects': seq['objects'], 'steps': seq['steps'][:r['step'] + 1]}}
+        tag = seq.get('tag', 'seq')
+        ctx.count((layer, tag, r['seq'], r['step']), f"seq:{tag}:{layer}:{'noport' if not r['connected'] else model_path(kind, a, r['board'])}", True)
+        if r['exc'] is not None:
+            ctx.violate(f'{layer} {kind}: helper raised in a call sequence against an acknowledging board', inp, r['exc'],
+                        'the documented command', key=f'seq-{layer}-{kind}-raised')
+            continue
+        if r['err'] is not None:
+            ctx.violate(f'ebb3 {kind}: an error was recorded although every request was acknowledged', inp, repr(r['err']), 'err is None',
+                        key=f'seq-ebb3-{kind}-err')
+        if outs:
+            fs = [parse_field(f) for f in outs[idx].split('|')]
+            mdl = fs[0] if layer == 'legacy' else fs[2]
+            if mdl is not None and got != mdl:
+                ctx.disagree(f'{layer} {kind}: bytes of a call inside a sequence differ from the model', inp, repr(got[:6]), repr(mdl[:6]))
+        if not r['connected']:
+            if got:
+                ctx.violate(f'{layer} {kind}: bytes written although the object has no port', inp, repr(got[:4]), 'nothing',
+                            key=f'seq-{layer}-{kind}-noport')
+            continue
+        body = got
+        if layer == 'legacy' and kind in GATE:
+            if not got or got[0] != b'V\r':
+                ctx.violate(f'legacy {kind}: firmware gate query missing (call inside a sequence)', inp, repr(got[:3]), "b'V\\r' first",
+                            key=f'seq-legacy-{kind}-gate')
+                continue
+            body = got[1:]
+            if tuple(int(x) for x in r['ver'].split('.')) < GATE[kind]:
+                if body:
+                    ctx.violate(f'legacy {kind}: command sent to firmware below the documented minimum (call inside a sequence)', inp,
+                                repr(got[:3]), 'only the version query', key=f'seq-legacy-{kind}-gate')
+                continue
+        if kind == 'timedPause':
+            ok, want = pause_ok(a[0], body)
+            if not ok:
+                ctx.violate(f'{layer} timed pause inside a sequence: wrong chunking', inp, repr(body[:4]) + f' ... {len(body)} commands', want,
+                            key=f'seq-{layer}-pause-chunking')
+        else:
+            req = required(kind, a, r['board'])
+            if body != req:
+                ctx.violate(f'{layer} {kind}: call {r["step"]} of a sequence on one port/object does not transmit the documented command',
+                            inp, repr(body[:6]), repr(req[:6]), key=f'seq-{layer}-{kind}-wrong-text')
